@@ -152,5 +152,24 @@ struct HighPool {
 };
 inline const HighPool& high_pool() { static HighPool p; return p; }
 
+// pairs of integer keys whose coupons share the 26-bit address (slot at every lg_k) but differ in the value: distinct coupons that a
+// comparison of the address alone would take for duplicates (found by a birthday search with the reference hash)
+struct TwinPool {
+  std::vector<std::pair<int64_t, int64_t>> pairs;  // (key with the smaller value, key with the larger value)
+  TwinPool() {
+    std::map<uint32_t, std::pair<int64_t, uint32_t>> seen;  // address -> (key, coupon)
+    for (int64_t k = 1; k < 400000 && pairs.size() < 24; ++k) {
+      H128 h = ref_hash_i64(k + 2000000011ll, 9001);
+      uint32_t c = ref_hll_coupon(h), addr = c & 0x3ffffffu;
+      auto it = seen.find(addr);
+      if (it == seen.end()) { seen[addr] = std::make_pair(k + 2000000011ll, c); continue; }
+      if (it->second.second == c) continue;
+      if ((it->second.second >> 26) < (c >> 26)) pairs.emplace_back(it->second.first, k + 2000000011ll);
+      else pairs.emplace_back(k + 2000000011ll, it->second.first);
+    }
+  }
+};
+inline const TwinPool& twin_pool() { static TwinPool p; return p; }
+
 }  // namespace vf
 #endif
